@@ -3,6 +3,7 @@
    Model: Fitness/Fitness.v; proofs: Fitness/FitnessProofs.v. *)
 From Coq Require Import List Bool QArith.
 From GolemV Require Import Fitness.Fitness Fitness.FitnessProofs.
+From GolemV Require Import Fitness.FitnessTol.
 Import ListNotations.
 
 (* an invalid fitness is never better than any fitness *)
@@ -125,3 +126,11 @@ Example tolerance_hypotheses_satisfiable :
   forallb2 close (vals f) (vals g) = true /\ forallb2 close (vals g) (vals f) = true /\
   identical (vals f) (vals g) = false.
 Proof. vm_compute. repeat split. Qed.
+
+(* a user subclass may override the tolerance hook: the driver judges such objects with the model and the clauses
+   instantiated with the overridden closeness test (Fitness/FitnessTol.v); for the stock test that instance is
+   literally the model and the oracle the theorems above are about *)
+Theorem C09_stock_tolerance_is_the_instance : forall f g o,
+  agree_c close f g o = agree f g o /\ holds_c close f g o = holds_b f g o.
+Proof. intros f g o. split; [apply agree_c_stock | apply holds_c_stock]. Qed.
+Print Assumptions C09_stock_tolerance_is_the_instance.
